@@ -10,7 +10,7 @@
    the property as an executable predicate over such a trace; the driver evaluates the same
    [check] on the traces of the Go implementation. *)
 From Coq Require Import NArith List Bool.
-From C28 Require Import Model ProofsRefute ProofsRun.
+From C28 Require Import Model ProofsRefute ProofsRun ProofsPow2.
 Import ListNotations.
 Local Open Scope N_scope.
 
@@ -20,10 +20,11 @@ Local Open Scope N_scope.
    (next power of two, at least 8) lies inside the current memory and is disjoint (headers
    included) from every live allocation; bytes stored in a live allocation are read back
    unchanged whatever allocations and frees happen in between; Deallocate of a pointer that is
-   not live fails (unless the 8 bytes before it lie below the heap base or contain bytes the
-   guest itself stored: a forged header, after which nothing is demanded); after any failed
-   call every later call fails (the allocator is poisoned); requests above 32 MiB fail; the
-   memory never exceeds 65536 pages (4 GiB). *)
+   not live fails, except that a pointer whose 8 preceding bytes lie below the heap base or
+   contain bytes the guest itself stored (a forged header) may be accepted — nothing is demanded
+   of the rest of a run after such an acceptance, nor after any free through guest-stored
+   bytes; after any failed call every later call fails (the allocator is poisoned); requests
+   above 32 MiB fail; the memory never exceeds 65536 pages (4 GiB). *)
 Theorem C28_spec : forall c init ops,
   c_pages c <= c_max c -> c_max c <= max_wasm_pages ->
   (forall a, align_up (c_hb c) <= a -> init a = 0) ->
@@ -42,6 +43,12 @@ Proof.
   split; [apply error_poisons_dealloc|apply poisoned_forever].
 Qed.
 Print Assumptions C28_max_request_and_poisoning.
+
+(* orderFromSize as the Go code computes it (bit-smearing next power of two on uint32, trailing
+   zeros) is the order the model uses *)
+Theorem C28_order_from_size : forall size, size <= max_alloc -> order_from_size_go size = order_of_size size.
+Proof. exact order_from_size_go_spec. Qed.
+Print Assumptions C28_order_from_size.
 
 (* non-vacuity: blocks of several orders, free-list reuse in LIFO order, data read back across
    other allocations and frees, a double free, poisoning *)
